@@ -167,6 +167,7 @@ func genSchedPlan(master uint64, run int) Plan {
 	r := NewRNG(seed)
 	g := newGen(r)
 	g.hostile = 6
+	g.idna = 3
 	pl := Plan{Prop: "C14", Seed: master, Run: run}
 	np := r.Range(1, 3)
 	for i := 0; i < np; i++ {
@@ -197,6 +198,9 @@ func genSchedPlan(master uint64, run int) Plan {
 		}
 		pl.Shared = append(pl.Shared, pre)
 		pl.SharedP = append(pl.SharedP, p)
+	}
+	if r.Chance(1, 2) {
+		g.setTheme() // tasks of this plan work on related inputs
 	}
 	nt := r.Range(2, 4)
 	for t := 0; t < nt; t++ {
@@ -806,9 +810,10 @@ func schedWorker() {
 			pl2 := genSchedPlan(seed, i)
 			res2 := runSched(&pl2, *fAtomic, false)
 			if res2.ILHash != res.ILHash || res2.ResHash != res.ResHash {
-				infra("nondeterminism: C14 run %d: interleaving %x/%x results %x/%x", i, res.ILHash, res2.ILHash, res.ResHash, res2.ResHash)
+				out.Mismatch = append(out.Mismatch, i) // see worldWorker
+			} else {
+				out.Redone++
 			}
-			out.Redone++
 		}
 	}
 	out.Hashes = dedupe(hashes)
@@ -997,6 +1002,16 @@ func driveSched(kf *KnownFindings, t0 time.Time) int {
 	mp := merge(plainOuts)
 	if mp.Viol != nil {
 		return reportSchedViolation(mp.Viol, false, mr, mp, t0)
+	}
+	if len(mr.Mismatch) > 0 {
+		n := verifyFresh(*fRace, "C14", mr.Mismatch, *fTmp)
+		mr.Extra["runs_whose_in_process_reexecution_differed(library keeps state between runs; fresh processes agree)"] = int64(len(mr.Mismatch))
+		mr.Extra["of_which_verified_in_fresh_processes"] = int64(n)
+	}
+	if len(mp.Mismatch) > 0 {
+		n := verifyFresh(os.Args[0], "C14", mp.Mismatch, *fTmp)
+		mp.Extra["runs_whose_in_process_reexecution_differed(library keeps state between runs; fresh processes agree)"] = int64(len(mp.Mismatch))
+		mp.Extra["of_which_verified_in_fresh_processes"] = int64(n)
 	}
 	writeSchedEvidence(mr, mp, 0, t0)
 	fmt.Printf("sim: C14 held on %d race-detector runs and %d plain runs (%d+%d context switches, %.1fs)\n", mr.Runs, mp.Runs, mr.Extra["switches"], mp.Extra["switches"], time.Since(t0).Seconds())
